@@ -110,6 +110,14 @@ class odict(dict):
         """
         return tuple()
 
+    def __reduce__(self):
+        """
+        Needed so pickle protocols 0 and 1 also rebuild via the class and so
+        create _keys. State is items list or None when empty so
+        __setstate__ is not called.
+        """
+        return (self.__class__, tuple(), self.__getstate__() or None)
+
     def __getstate__(self):
         """
         return state as items list. need this so pickle works since defined slots
